@@ -751,6 +751,39 @@ impl World {
 		for c in calls {
 			self.hist = simcore::fnv_extend(self.hist, &c.update_id.to_le_bytes());
 			self.out.bump("oracle:C09-1 gap-free update ids at Watch");
+			if !c.new_channel && self.nodes[n].check_styles {
+				let b = c.update_bytes.clone();
+				self.shadow_update(n, c.chan, &b);
+			}
+			if !c.new_channel {
+				if !c.update_eq_after_roundtrip {
+					self.violate(
+						"C12",
+						"C12-a monitor update differs after write/read",
+						format!("node {} channel {} update {}", n, simcore::hex(&c.chan[..4]), c.update_id),
+					);
+				}
+				if self.nodes[n].check_roundtrip {
+					let b = c.update_bytes.clone();
+					self.check_update_roundtrip(n, &b);
+				}
+				if let Some(ok) = c.commutes {
+					self.out.bump("oracle:C12-a update before or after a round trip gives equal monitors");
+					if !ok {
+						self.violate(
+							"C12",
+							"C12-a applying an update after a round trip gives a different monitor",
+							format!(
+								"node {} channel {} update {} ({:?}): read(write(m)).update(u) != m.update(u)",
+								n,
+								simcore::hex(&c.chan[..4]),
+								c.update_id,
+								c.steps.iter().map(|s| s.0).collect::<Vec<_>>()
+							),
+						);
+					}
+				}
+			}
 			for (name, _) in c.steps.iter() {
 				self.out.bump(&format!("monupd:{}", name));
 			}
